@@ -56,6 +56,9 @@ type history struct {
 	Query    string  `json:"query"`
 	Tracks   []tcfgA `json:"tracks"`
 	Ops      []auA   `json:"ops"`
+	// Faults lists the ordinals (0-based, in call order) of storage NewFile calls that fail. A
+	// history with faults is outside the model (no T leg); only the retention oracle of C18 runs on it.
+	Faults []int `json:"faults,omitempty"`
 }
 
 func isVideoKind(k int) bool { return k >= kH264 && k <= kAV1 }
@@ -146,6 +149,9 @@ func genHistory(r *rng.R, long bool) history {
 		v.Params0 = int64(r.Intn(12))
 		if v.Kind == kH264 {
 			v.Params0 = 1
+		}
+		if r.Bool(1, 5) { // IsDefault on the video track is legal and must not count as a default audio rendition
+			v.Default = true
 		}
 		pos := r.Intn(len(tracks) + 1) // any order of video / audio
 		tracks = append(tracks[:pos], append([]tcfgA{v}, tracks[pos:]...)...)
